@@ -121,6 +121,40 @@ fn enumerate_c04(cli: &Cli, r: &Report) {
             }
         }
     }
+    // The time rule does not depend on the types involved: every (entry point, input shape, output shape) - zero-sized or
+    // not, with or without destructors, i.e. every storage path of the sample recorder - under option sets and clock
+    // histories in which the time spent outside the timed sections (generation, drops) decides when sampling stops.
+    for entry in 0..6usize {
+        let ishapes: &[usize] = if entry < 2 { &[0] } else { &[0, 1, 2, 3] };
+        for &ishape in ishapes {
+            for oshape in 0..4usize {
+                for (min, max) in [(None, Some(4u64)), (None, Some(6)), (Some(7u64), None), (Some(3), Some(6)), (Some(7), Some(4))] {
+                    for skip in [None, Some(true)] {
+                        for (g, c, d) in [(2 * u, u, 0), (u, u, 2 * u), (0, u, 5 * u), (5 * u, 400, u)] {
+                            for s in [1u32, 2] {
+                                index += 1;
+                                if !cli.mine(index) {
+                                    continue;
+                                }
+                                let mut case = LoopCase::basic(entry, ishape, oshape);
+                                case.sample_count = Some(2);
+                                case.sample_size = Some(s);
+                                case.min_time_ns = min;
+                                case.max_time_ns = max;
+                                case.skip_ext = skip;
+                                case.cost[SITE_GEN] = vec![if entry >= 2 { g } else { 0 }];
+                                case.cost[SITE_CALL] = vec![c];
+                                case.cost[SITE_DROP_IN] = vec![d];
+                                case.cost[SITE_DROP_OUT] = vec![d];
+                                case.horizon = 2 * 64 + 2;
+                                check(r, "C04", &case, index);
+                            }
+                        }
+                    }
+                }
+            }
+        }
+    }
     // Non-zero measurement overheads (subtracted from the *reported* sample durations only): the budget
     // under skip_ext_time still counts the raw timed sections.
     for n in [1u32, 3] {
